@@ -830,3 +830,86 @@ Definition first_gen (scname : nat) (k : option nat) (acts : list (nat * prog)) 
                 end))
              (GenClose g)
        end).
+
+(** ** Resources (usim/_basics/resource.py), for resource types with ONE named resource: the level vector is a
+    single number held in a [Tracked] cell; comparisons `resources._available >= debits` are [AsyncComparison]s
+    on that cell (a fresh comparison object, registered as listener, for every evaluation) *)
+Definition dres : resrec := {| r_parent := None; r_debits := []; r_avail := 0 |}.
+Definition get_res (o : objs) r := nth r (ress o) dres.
+Definition res_debit (o : objs) r : Z := match r_debits (get_res o r) with d :: _ => d | [] => 0%Z end.
+Definition res_level (o : objs) r : Z := tval (get_track o (r_avail (get_res o r))).
+
+(** evaluate `tracked OP z`: a new comparison object listening on the cell *)
+Definition new_cmp (o : objs) (v : nat) (op : cmpop) (z : Z) : objs * nid :=
+  let '(o1, m) := alloc_notif o (NCmp v op z) in (add_listener o1 v m, m).
+
+(** [BaseResources.__insert_resources__] / [__remove_resources__] *)
+Definition res_insert (r : nat) (amt : Z) : prog :=
+  Dyn (fun o _ => tracked_set (r_avail (get_res o r)) (res_level o r + amt)).
+Definition res_remove (r : nat) (amt : Z) : prog :=
+  Dyn (fun o _ => tracked_set (r_avail (get_res o r)) (res_level o r - amt)).
+
+(** [BorrowedResources.__release_nowait__(held)]: two new activities, started later in this time step *)
+Definition release_nowait (s : nat) (held : Z) : prog :=
+  Do (fun o _ =>
+        let a1 := length (astat o) in
+        let p := match r_parent (get_res o s) with Some p => p | None => 0 end in
+        let d := res_debit o s in
+        mkpres o [KNow a1 None; KNow (S a1) None] [(a1, res_remove s held); (S a1, res_insert p d)] (inl VU)).
+
+(** `resources.borrow(a=d)` / `.claim(a=d)`: the BorrowedResources object (no suspension) *)
+Definition res_borrow_obj (p : nat) (d : Z) : prog :=
+  Do (fun o _ =>
+        if (d <? 0)%Z then err o EAssertion                        (* cannot borrow negative amounts *)
+        else if match r_parent (get_res o p) with Some _ => (res_debit o p <? d)%Z | None => false end
+        then err o EAssertion                                       (* cannot borrow beyond capacity *)
+        else
+          let t := length (tracked o) in
+          let s := length (ress o) in
+          okv (o <| tracked := tracked o ++ [{| tval := 0%Z; tlisteners := [] |}] |>
+                 <| ress := ress o ++ [{| r_parent := Some p; r_debits := [d]; r_avail := t |}] |>) (VN s)).
+
+(** [BorrowedResources.__aenter__] *)
+Definition borrow_enter (s : nat) : prog :=
+  Dyn (fun o _ =>
+    let p := match r_parent (get_res o s) with Some p => p | None => 0 end in
+    let d := res_debit o s in
+    let pv := r_avail (get_res o p) in
+    c1 <- Do (fun o _ => let '(o1, m) := new_cmp o pv Ge d in okv o1 (VN m)) ;;
+    Dyn (fun o _ =>
+      if cond_true o (vnat c1) then Ret VU
+      else c2 <- Do (fun o _ => let '(o1, m) := new_cmp o pv Ge d in okv o1 (VN m)) ;; await_n (vnat c2)) ;;;
+    Catch (res_remove p d ;;; res_insert s d)
+          (fun e => Dyn (fun o _ => release_nowait s (res_level o s)) ;;; Raise e)).
+
+(** [BorrowedResources.__aexit__] *)
+Definition borrow_exit (s : nat) (exc : option exn) : prog :=
+  Dyn (fun o _ =>
+    let p := match r_parent (get_res o s) with Some p => p | None => 0 end in
+    let d := res_debit o s in
+    match exc with
+    | Some EGenExit => release_nowait s d
+    | _ => Catch (res_remove s d) (fun e => release_nowait s 0%Z ;;; Raise e) ;;; res_insert p d
+    end).
+
+(** `async with resources.borrow(a=d) as share: body` *)
+Definition with_borrow (p : nat) (d : Z) (claim : bool) (body : nat -> prog) : prog :=
+  s <- res_borrow_obj p d ;; let s := vnat s in
+  (if claim
+   then Dyn (fun o _ =>
+          let pv := r_avail (get_res o p) in
+          c0 <- Do (fun o _ => let '(o1, m) := new_cmp o pv Ge d in okv o1 (VN m)) ;;
+          Dyn (fun o _ => if cond_true o (vnat c0) then Ret VU else Raise EResUnavailable))
+   else Ret VU) ;;;
+  borrow_enter s ;;;
+  v <- Catch (body s) (fun e => borrow_exit s (Some e) ;;; Raise e) ;;
+  borrow_exit s None ;;; Ret v.
+
+(** [Resources.increase / decrease / set] *)
+Definition res_increase (r : nat) (d : Z) : prog :=
+  if (d <? 0)%Z then Raise EAssertion else res_insert r d.
+Definition res_decrease (r : nat) (d : Z) : prog :=
+  if (d <? 0)%Z then Raise EAssertion
+  else Dyn (fun o _ => if (res_level o r - d <? 0)%Z then Raise EAssertion else res_remove r d).
+Definition res_set (r : nat) (v : Z) : prog :=
+  if (v <? 0)%Z then Raise EAssertion else Dyn (fun o _ => tracked_set (r_avail (get_res o r)) v).
